@@ -109,6 +109,7 @@ class SessionRun(ClientRun):
         self.op_results: dict[str, object] = {}
         self.sub_unsubs: dict[int, object] = {}
         self.sub_fams: dict[int, str] = {}
+        self.leftover: set[str] = set()
         self.sent: dict[int, object] = {}  # key -> state message sent (value oracle)
         # message boundaries: callbacks of ONE message reach its subscribers in no particular order
         self.msg_seq = 0
@@ -153,6 +154,8 @@ class SessionRun(ClientRun):
                     res = [s.handle for s in r.services]
                 else:
                     self.op_results[op.base] = r
+                    if callable(r) or isinstance(r, tuple):
+                        self.leftover.add(op.base)
             done.append([op.base, op.outcome, res])
         raw, self.cb = self.cb, []
         groups: dict = {}
@@ -217,6 +220,10 @@ class SessionRun(ClientRun):
             t = self.ops.get(oid)
             if t is not None and not t.done():
                 return False
+            if oid in self.leftover:
+                # the previous operation in this slot still has its documented subscription (connect's state
+                # callback / notify's data callback): the slot - and with it the subscriber id - is not reused
+                return False
             run = self
             if k == "read":
                 coro = c.bluetooth_gatt_read(A, h, timeout=TBLE)
@@ -266,6 +273,7 @@ class SessionRun(ClientRun):
             if not callable(r):
                 return False
             r()
+            self.leftover.discard(oid)
 
         self.inject("ConnUnsub", {"i": oid}, fn)
 
@@ -277,6 +285,7 @@ class SessionRun(ClientRun):
             if not isinstance(r, tuple):
                 return False
             stop, remove = r
+            self.leftover.discard(oid)
             if how == "remove":
                 remove()  # may be called again later: harmless
             else:
